@@ -57,6 +57,7 @@ def run(facts, rep):
     if not (D1 + 'blocked_range') in ranges:
         raise AnalysisBroken('blocked_range not recognised as a range class')
     d1_divisible(facts, rep, ranges)
+    d1_grainsize_is_only_compared(facts, rep)
     d2_tiling(facts, rep)
     d3_chunks(facts, rep)
     d4_items(facts, rep)
@@ -717,3 +718,48 @@ def d7_range_pool_ring(facts, rep, clause='D7'):
     if n < 3:
         raise AnalysisBroken('range_vector index steps not found (%d)' % n)
     rep.floor(clause, 3, 'range pool ring steps')
+
+
+def d1_grainsize_is_only_compared(facts, rep):
+    """"a range that is not divisible is never split ... chunks respect the grain size": the grain size of a blocked_range is any
+    positive value of size_type - `numeric_limits<size_t>::max()` is the common "never split" idiom - while positions are
+    values of the (possibly narrower, possibly signed) Value type.  The divisibility test therefore compares the grain with the
+    SIZE of the range (a difference of two positions, which exists whenever begin <= end); a position plus the grain, or any other
+    arithmetic on the grain, can wrap and makes a non-divisible range report divisible.  Rule: in the methods of blocked_range
+    the member my_grainsize is only read into comparisons, initialisers and return values, never into an arithmetic operator."""
+    n = 0
+    cls = D1 + 'blocked_range'
+    for fn in sorted(facts.fns.values(), key=lambda f: f.q):
+        if (fn.cls or '') != cls:
+            continue
+        pm = None
+        bad = []
+        for pos, s, nd in fn.stmt_elems(('member',)):
+            if nd.get('n') != 'my_grainsize' or 'fn' in nd:
+                continue
+            pm = pm or fn.parent_map()
+            n += 1
+            cur = s
+            for _ in range(6):
+                par = pm.get(cur)
+                if par is None:
+                    break
+                pn = fn.nodes[par]
+                if pn.get('k') in ('rd', 'cast', 'paren'):
+                    cur = par
+                    continue
+                if pn.get('k') == 'binop' and pn['op'] in ('+', '-', '*', '/', '%', '<<', '>>', '+=', '-='):
+                    bad.append('`%s` at line %s' % (fn.path(par), pn.get('ln')))
+                break
+        if bad:
+            rep.ob('D1', 'K14', fn, 'the grain size is only compared with the size of the range, never put into arithmetic', False,
+                   'arithmetic on my_grainsize (%s): with a grain size near the limit of size_type (the "never split" idiom) or beyond the '
+                   'range of Value the result wraps and a range that is not divisible is split' % ', '.join(bad), key_extra='grain-arith')
+    for fn in facts.get(cls + '::is_divisible'):
+        rep.ob('D1', 'K14', fn, 'the grain size is only compared with the size of the range, never put into arithmetic',
+               any(nd.get('k') == 'member' and nd.get('n') == 'my_grainsize' for nd in fn.nodes if nd) and
+               not any(nd and nd.get('k') == 'binop' and nd['op'] in ('+', '*') and
+                       any(fn.nodes[x].get('n') == 'my_grainsize' for x in fn.subtree(nd['s'])) for nd in fn.nodes),
+               'is_divisible() does not compare my_grainsize with size()', key_extra='grain-arith')
+    if n < 3:
+        raise AnalysisBroken('blocked_range: reads of my_grainsize: %d (expected constructor, accessor, is_divisible, splitting constructors)' % n)
